@@ -1,5 +1,6 @@
 mod aisle;
 mod calls;
+mod fraction;
 mod prec;
 mod sym;
 mod util;
@@ -13,6 +14,7 @@ fn main() {
         "aisle" => aisle::main(&args[1..]),
         "spans" => prec::main_spans(&args[1..]),
         "calls" => calls::main(&args[1..]),
+        "fraction" => fraction::main(&args[1..]),
         "selfcheck" => println!("ok"),
         _ => {
             eprintln!("unknown command {cmd:?}");
